@@ -1,7 +1,7 @@
 """C18 - Device parameters map to materials exactly as documented.
 Spec: spec/ApplyParams.tla (+ApplyParamsDefs), trace spec: spec/Trace_ApplyParams.tla.  DESIGN.md §5 C18.
 
-1-D scenes (N x 1 x 1 cells: volume, optional slab, one device) are built through the public pipeline
+1-D scenes (N x 1 x 1 cells: volume, optional slab, one device or an etched + a plain device) are built through the public pipeline
 place_objects -> apply_params; parameter histories of length 1..3 with values in {0, 1/2, 1} (material indices
 for discrete devices) are applied one after the other, and once more only the last set to the freshly placed
 arrays.  TLC checks every event: device cells = inverse of the documented blend / selected material, other
@@ -23,8 +23,13 @@ FULL_B = [4, 0, 1, 0, 4, 0, 1, 0, 2]
 
 
 def model_check(ctx):
-    ctx.mc("ApplyParams", "MC_ApplyParams_q.cfg" if ctx.quick else "MC_ApplyParams_t.cfg", label="4 cells, 4 placements, continuous/etched/discrete devices with materials from {1,2,4}, all parameter histories of length <= 3")
-    ctx.mc_negative("ApplyParams", "MC_ApplyParams_neg.cfg")  # etched device without the backup of the placed arrays
+    if ctx.quick:
+        ctx.mc("ApplyParams", "MC_ApplyParams_q.cfg", label="one device: 4 cells, 4 placements, continuous/etched/discrete, materials from {1,2,4}, all histories <= 3")
+        ctx.mc("ApplyParams", "MC_ApplyParams_q2.cfg", label="etched + plain device, both list orders, disjoint / overlapping, all histories <= 3")
+    else:
+        ctx.mc("ApplyParams", "MC_ApplyParams_t.cfg", label="one and two devices, placed scenes over {1,2,4}^4, all histories <= 3", timeout=3 * 3600)
+    ctx.mc_negative("ApplyParams", "MC_ApplyParams_neg.cfg")  # no backup of the placed arrays at all
+    ctx.mc_negative("ApplyParams", "MC_ApplyParams_neg2.cfg")  # backup only if ALL devices etch (etched + plain scene)
     ctx.assumptions += [
         "1-D scenes N x 1 x 1; permittivity tensors with small integer entries; parameters in {0, 1/2, 1}",
         "inverse permittivities are sent in units of 1e-8; 'inverse of the blend' is checked as inv*blend = identity within 16 units (1.6e-7 on a product of 2); exact (tolerance 0) for discrete devices with isotropic / diagonal materials",
@@ -64,7 +69,7 @@ def gen_cases(ctx):
                 if ctx.quick:
                     matsets = rng.sample(matsets, 2)
                 for ms in matsets:
-                    scenes.append({"N": N, "lo": lo, "hi": hi, "vox": vox, "slab": slab, "vol": vol, "kind": kind, "mats": ms, "disp": 0})
+                    scenes.append({"N": N, "slab": slab, "vol": vol, "disp": 0, "devs": [{"lo": lo, "hi": hi, "vox": vox, "kind": kind, "mats": ms}]})
     # anisotropic scenes: diagonal and full tensors (in the device and / or around it)
     for N, lo, hi, vox in ((4, 1, 3, 1), (6, 1, 5, 2)):
         for kind in ("continuous", "etched", "discrete"):
@@ -73,29 +78,60 @@ def gen_cases(ctx):
                 for slab in (None, (0, 2, [1, 2, 2]), (1, N, FULL_B)):
                     if ctx.quick and rng.random() < 0.5:
                         continue
-                    scenes.append({"N": N, "lo": lo, "hi": hi, "vox": vox, "slab": slab, "vol": 1, "kind": kind, "mats": mats, "disp": 0})
+                    scenes.append({"N": N, "slab": slab, "vol": 1, "disp": 0, "devs": [{"lo": lo, "hi": hi, "vox": vox, "kind": kind, "mats": mats}]})
     # dispersive material inside a discrete device (and a dispersive slab next to it)
     for N, lo, hi, vox in ((4, 1, 3, 1), (6, 2, 6, 2)):
         for ms in ([1, 4], [1, 2, 4]):
             for slab in (None, (0, 2, 2)):
-                scenes.append({"N": N, "lo": lo, "hi": hi, "vox": vox, "slab": slab, "vol": 1, "kind": "discrete", "mats": ms, "disp": 1})
+                scenes.append({"N": N, "slab": slab, "vol": 1, "disp": 1, "devs": [{"lo": lo, "hi": hi, "vox": vox, "kind": "discrete", "mats": ms}]})
+    # two devices: one etched, one plain (continuous or discrete), both orders in the object list; disjoint,
+    # touching and overlapping placements; an anisotropic variant.  (An etched device that follows an overlapping
+    # plain one blends with that device's output: the plain device then only gets parameters 0 / 1 so that the
+    # doubled integer arithmetic of the spec stays exact.)
+    pairs = []
+    for N, e_pl, p_pl in ((6, (0, 2, 1), (3, 5, 1)), (6, (1, 3, 2), (3, 6, 3)), (4, (0, 2, 2), (2, 4, 2)), (6, (0, 4, 2), (2, 6, 2)), (6, (2, 5, 1), (0, 3, 1))):
+        for slab in (None, (0, 3, 4), (1, N, 2)):
+            for e_m, p_kind, p_m in (([1], "continuous", [2, 4]), ([4], "continuous", [1, 2]), ([2], "discrete", [1, 4]), ([1], "discrete", [1, 2, 4])):
+                for order in (0, 1):
+                    e = {"lo": e_pl[0], "hi": e_pl[1], "vox": e_pl[2], "kind": "etched", "mats": e_m}
+                    q = {"lo": p_pl[0], "hi": p_pl[1], "vox": p_pl[2], "kind": p_kind, "mats": p_m}
+                    pairs.append({"N": N, "slab": slab, "vol": 1 if slab else 2, "disp": 0, "devs": [e, q] if order == 0 else [q, e]})
+    for order in (0, 1):
+        e = {"lo": 0, "hi": 2, "vox": 1, "kind": "etched", "mats": [[1, 2, 4]]}
+        q = {"lo": 3, "hi": 5, "vox": 2, "kind": "continuous", "mats": [FULL_A, 4]}
+        pairs.append({"N": 6, "slab": (1, 4, FULL_B), "vol": 1, "disp": 0, "devs": [e, q] if order == 0 else [q, e]})
     ctx.exhaustive = False
     if ctx.quick:  # keep every anisotropic / dispersive scene family, thin the isotropic ones
-        iso = [sc for sc in scenes if not sc["disp"] and all(isinstance(m, int) for m in sc["mats"]) and not (sc["slab"] and not isinstance(sc["slab"][2], int))]
-        rest = [sc for sc in scenes if sc not in iso]
-        scenes = rng.sample(iso, 36) + rng.sample(rest, min(len(rest), 30))
-    for sc in scenes:
-        nv = (sc["hi"] - sc["lo"]) // sc["vox"]
-        levels = [0, 1, 2] if sc["kind"] != "discrete" else list(range(len(sc["mats"])))
-        allp = list(itertools.product(levels, repeat=nv))
-        hists = [[list(p)] for p in (allp if len(allp) <= 9 else rng.sample(allp, 9))]
-        for hl in (2, 3, 3) if ctx.quick else (2, 2, 3, 3, 3, 3):
-            hists.append([list(rng.choice(allp)) for _ in range(hl)])
-        if ctx.quick:
-            hists = rng.sample(hists[:9], min(2, len(hists[:9]))) + hists[9:]
+        def is_iso(sc):
+            return not sc["disp"] and all(isinstance(m, int) for d in sc["devs"] for m in d["mats"]) and not (sc["slab"] and not isinstance(sc["slab"][2], int))
+
+        iso = [sc for sc in scenes if is_iso(sc)]
+        rest = [sc for sc in scenes if not is_iso(sc)]
+        scenes = rng.sample(iso, 24) + rng.sample(rest, min(len(rest), 20))
+        pairs = rng.sample(pairs[:-2], 20) + pairs[-2:]
+    for sc in scenes + pairs:
+        devs = sc["devs"]
+        allp = []
+        for i, d in enumerate(devs):
+            nv = (d["hi"] - d["lo"]) // d["vox"]
+            later_etch_overlap = any(x["kind"] == "etched" and x["lo"] < d["hi"] and d["lo"] < x["hi"] for x in devs[i + 1 :])
+            levels = list(range(len(d["mats"]))) if d["kind"] == "discrete" else ([0, 2] if later_etch_overlap else [0, 1, 2])
+            allp.append(list(itertools.product(levels, repeat=nv)))
+
+        def pick():
+            return [list(rng.choice(a)) for a in allp]
+
+        if len(devs) == 1:
+            singles = [[[list(p)]] for p in (allp[0] if len(allp[0]) <= 9 else rng.sample(allp[0], 9))]
+            if ctx.quick:
+                singles = rng.sample(singles, min(2, len(singles)))
+            hists = singles + [[pick() for _ in range(hl)] for hl in ((2, 3, 3) if ctx.quick else (2, 2, 3, 3, 3, 3))]
+        else:  # histories of 2-3 parameter sets (plus one single application)
+            hists = [[pick()]] + [[pick() for _ in range(hl)] for hl in ((2, 3, 3) if ctx.quick else (2, 2, 2, 3, 3, 3, 3, 3))]
         for h in hists:
             n += 1
-            yield {"id": f"{sc['kind']}-N{sc['N']}-{sc['lo']}-{sc['hi']}-v{sc['vox']}-{n}", "scene": sc, "hist": h}
+            tag = "+".join(f"{d['kind'][:4]}{d['lo']}-{d['hi']}v{d['vox']}" for d in devs)
+            yield {"id": f"N{sc['N']}-{tag}-{n}", "scene": sc, "hist": h}
 
 
 _SCENES = {}
@@ -139,13 +175,14 @@ def _place(sc):
             base[c] = _tensor(m)
     # material names deliberately NOT in permittivity order
     names = ["zeta", "alpha", "mid"]
-    mats = {names[i]: mat(m, dispersive=bool(sc["disp"]) and i == len(sc["mats"]) - 1) for i, m in enumerate(sc["mats"])}
-    if len(mats) > 1:
-        mats = dict(reversed(list(mats.items())))
-    tr = [fdtdx.ClosestIndex()] if sc["kind"] == "discrete" else []
-    dev = fdtdx.Device(name="dev", partial_grid_shape=(sc["hi"] - sc["lo"], 1, 1), materials=mats, param_transforms=tr, partial_voxel_grid_shape=(sc["vox"], 1, 1), use_etching=sc["kind"] == "etched")
-    objs.append(dev)
-    cons.append(dev.set_grid_coordinates(axes=(0, 1, 2), sides=("-", "-", "-"), coordinates=(sc["lo"], 0, 0)))
+    for i, d in enumerate(sc["devs"]):
+        mats = {names[j]: mat(m, dispersive=bool(sc["disp"]) and j == len(d["mats"]) - 1) for j, m in enumerate(d["mats"])}
+        if len(mats) > 1:
+            mats = dict(reversed(list(mats.items())))
+        tr = [fdtdx.ClosestIndex()] if d["kind"] == "discrete" else []
+        dev = fdtdx.Device(name=f"dev{i}", partial_grid_shape=(d["hi"] - d["lo"], 1, 1), materials=mats, param_transforms=tr, partial_voxel_grid_shape=(d["vox"], 1, 1), use_etching=d["kind"] == "etched")
+        objs.append(dev)
+        cons.append(dev.set_grid_coordinates(axes=(0, 1, 2), sides=("-", "-", "-"), coordinates=(d["lo"], 0, 0)))
     objects, arrays, params, cfg, _ = fdtdx.place_objects(object_list=objs, config=cfg, constraints=cons, key=jax.random.PRNGKey(0))
     res = (objects, arrays, params, base)
     with _LOCK:
@@ -162,11 +199,12 @@ def _enc(arrays, N, state):
     a = np.clip(np.nan_to_num(a, nan=1.2, posinf=1.2, neginf=-1.2), -1.2, 1.2) * S
     r = np.rint(a)
     state["rdev"] = max(state["rdev"], int(round(float(np.max(np.abs(a - r))) * 1000)))
+    rd = [int(round(float(np.max(np.abs(a[:, c] - r[:, c]))) * 1000)) for c in range(N)]  # per cell, 1/1000 unit
     inv = []
     for c in range(N):
         v = [int(x) for x in r[:, c]]
         inv.append([v[0], 0, 0, 0, v[0], 0, 0, 0, v[0]] if comps == 1 else [v[0], 0, 0, 0, v[1], 0, 0, 0, v[2]] if comps == 3 else v)
-    out = {"inv": inv}
+    out = {"inv": inv, "rd": rd}
     if arrays.dispersive_c1 is not None:
         cs = [np.asarray(x, dtype=np.float64)[:, :, :, 0, 0] for x in (arrays.dispersive_c1, arrays.dispersive_c2, arrays.dispersive_c3)]
         out["dc"] = [[int(v) for x in cs for v in np.rint(np.clip(x[:, :, c], -20, 20).reshape(-1) * S)] for c in range(N)]
@@ -184,24 +222,35 @@ def observe(case):
     sc = case["scene"]
     objects, arrays0, params0, base = _place(sc)
     N = sc["N"]
-    nv = (sc["hi"] - sc["lo"]) // sc["vox"]
-    dev = objects["dev"]
+    # the devices in the order apply_params visits them
+    order = [int(d.name[3:]) for d in objects.devices]
+    sdevs = [sc["devs"][i] for i in order]
     st = {"rdev": 0}
     e0, comps = _enc(arrays0, N, st)
     events = [dict(e0, p=[])]
     key = jax.random.PRNGKey(1)
 
-    def pset(h):
-        vals = [float(v) if sc["kind"] == "discrete" else v / 2.0 for v in h]
-        return {"dev": jnp.asarray(vals, dtype=jnp.float64).reshape(nv, 1, 1)}
+    def pset(h):  # h: one parameter vector per device of the scene description (object-list order)
+        out = {}
+        for i, d in enumerate(sc["devs"]):
+            nv = (d["hi"] - d["lo"]) // d["vox"]
+            vals = [float(v) if d["kind"] == "discrete" else v / 2.0 for v in h[i]]
+            out[f"dev{i}"] = jnp.asarray(vals, dtype=jnp.float64).reshape(nv, 1, 1)
+        return out
 
-    def chain(p):
-        o = np.asarray(dev(p["dev"], expand_to_sim_grid=False), dtype=np.float64).reshape(-1)
-        o2 = o if sc["kind"] == "discrete" else 2.0 * o
-        r = np.rint(o2)
-        if not np.all(np.isfinite(o2)) or float(np.max(np.abs(o2 - r))) != 0.0 or o.size != nv:
-            return [-1] * nv
-        return [int(v) for v in r]
+    def chain(p):  # what each device's transform chain produced, in apply order
+        res = []
+        for i in order:
+            d = sc["devs"][i]
+            nv = (d["hi"] - d["lo"]) // d["vox"]
+            o = np.asarray(objects[f"dev{i}"](p[f"dev{i}"], expand_to_sim_grid=False), dtype=np.float64).reshape(-1)
+            o2 = o if d["kind"] == "discrete" else 2.0 * o
+            r = np.rint(o2)
+            if not np.all(np.isfinite(o2)) or float(np.max(np.abs(o2 - r))) != 0.0 or o.size != nv:
+                res.append([-1] * nv)
+            else:
+                res.append([int(v) for v in r])
+        return res
 
     arrays, objs = arrays0, objects
     for h in case["hist"]:
@@ -211,16 +260,16 @@ def observe(case):
         events.append(dict(e, p=chain(p)))
     fa, _, _ = fdtdx.apply_params(arrays0, objects, pset(case["hist"][-1]), key)
     fresh, _ = _enc(fa, N, st)
-    ordered = sorted((_tensor(m) for m in sc["mats"]), key=lambda t: t[0])
-    rec = {"id": case["id"], "N": N, "comps": comps, "S": S, "tol": TOL, "base": base, "kind": sc["kind"],
-           "dev": {"lo": sc["lo"], "hi": sc["hi"], "vox": sc["vox"], "kind": sc["kind"], "mats": ordered},
-           "events": events, "fresh": fresh, "rdev": st["rdev"], "disp": 0, "hlen": len(case["hist"])}  # fmt: skip
+    tdevs = [{"lo": d["lo"], "hi": d["hi"], "vox": d["vox"], "kind": d["kind"], "mats": sorted((_tensor(m) for m in d["mats"]), key=lambda t: t[0])} for d in sdevs]
+    rec = {"id": case["id"], "N": N, "comps": comps, "S": S, "tol": TOL, "base": base, "ndev": len(tdevs),
+           "devs": tdevs, "events": events, "fresh": fresh, "rdev": st["rdev"], "disp": 0, "hlen": len(case["hist"])}  # fmt: skip
+    dev = objects["dev0"]
     if sc["disp"] and arrays0.dispersive_c1 is not None:
         npoles, nc = arrays0.dispersive_c1.shape[0], arrays0.dispersive_c1.shape[1]
         ncc = arrays0.dispersive_c3.shape[1]
         t = compute_allowed_dispersive_coefficients(dev.materials, dt=dev._config.time_step_duration, max_num_poles=npoles, num_components=nc, coupling_components=ncc)
         tabs = [np.asarray(x, dtype=arrays0.dispersive_c1.dtype).astype(np.float64) for x in t[:3]]
-        rec["dtable"] = [[int(v) for x in tabs for v in np.rint(np.clip(x[m], -20, 20).reshape(-1) * S)] for m in range(len(sc["mats"]))]
+        rec["dtable"] = [[int(v) for x in tabs for v in np.rint(np.clip(x[m], -20, 20).reshape(-1) * S)] for m in range(len(sc["devs"][0]["mats"]))]
         rec["disp"] = 1
     return rec
 
